@@ -119,6 +119,77 @@ def job(arg, explicit_points=None):
     return tname, kind, name, n, fails, None
 
 
+def special_job(arg):
+    """identities at the points the main lattice leaves out: zero components off the branch cuts, NaN components, and the
+    real-valued algorithms"""
+    tname = arg
+    warnings.simplefilter("ignore")
+    from functional_algorithms import targets
+
+    from vf import dagfp
+
+    t = getattr(numpy, tname)
+    ct = CT[tname]
+    out = {}
+
+    def rec(name, **kw):
+        out.setdefault(name, []).append(kw)
+
+    def Z(a, b):
+        r = numpy.empty(1, dtype=ct)
+        r.real[0], r.imag[0] = a, b
+        return r[0]
+
+    def bits(v):
+        v = ct(v)
+        f = lambda q: "nan" if numpy.isnan(q) else t(q).tobytes().hex()  # noqa
+        return (f(v.real), f(v.imag))
+
+    with numpy.errstate(all="ignore"):
+        # oddness at signed zeros OFF the branch cuts (|component| < 1 keeps clear of every cut)
+        for name in ("asin", "asinh", "atan", "atanh"):
+            key = "odd[zero-component-off-the-cut]/%s" % name
+            out.setdefault(key, [])
+            try:
+                f = targets.numpy.as_function(dagfp.expand(name, (ct,)), debug=0)
+                for x, y in ((0.5, 0.0), (0.5, -0.0), (-0.5, 0.0), (0.0, 0.5), (-0.0, 0.5), (0.0, -0.5), (0.25, 0.0), (0.0, 0.25)):
+                    a, b = f(Z(t(x), t(y))), f(Z(t(-x), t(-y)))
+                    if bits(b) != bits(Z(-a.real, -a.imag)):
+                        rec(key, x=repr(x), y=repr(y), f_z=repr(a), f_minus_z=repr(b))
+            except Exception as e:
+                rec(key, raised=repr(e)[:200])
+        # conj symmetry with a NaN component (NaN matches NaN)
+        for name in ("asin", "acos", "asinh", "acosh", "atan", "atanh", "sqrt", "log", "exp"):
+            key = "conj[nan-component]/%s" % name
+            out.setdefault(key, [])
+            try:
+                f = targets.numpy.as_function(dagfp.expand(name, (ct,)), debug=0)
+                for x, y in ((1e30, numpy.nan), (0.5, numpy.nan), (-2.0, numpy.nan)):
+                    a, b = f(Z(t(x), t(y))), f(Z(t(x), -t(y)))
+                    if bits(b) != bits(Z(a.real, -a.imag)):
+                        rec(key, x=repr(x), y="nan", f_z=repr(a), f_conj_z=repr(b))
+            except Exception as e:
+                rec(key, raised=repr(e)[:200])
+        # the real-valued algorithms are odd too, bit for bit (signed zero included)
+        for name in ("asin", "asinh", "atan", "atanh"):
+            key = "odd[real]/%s" % name
+            out.setdefault(key, [])
+            try:
+                f = targets.numpy.as_function(dagfp.expand(name, (t,)), debug=0)
+                fi = numpy.finfo(t)
+                for x in (0.0, 0.5, 0.25, 1.0, float(fi.tiny), float(fi.smallest_subnormal), 1e-3, 0.9999, 3.0, 1e10, float(fi.max), numpy.inf):
+                    if name in ("asin", "atanh") and abs(x) > 1:
+                        continue
+                    a, b = t(f(t(x))), t(f(t(-x)))
+                    if not ((numpy.isnan(a) and numpy.isnan(b)) or (-a).tobytes() == b.tobytes()):
+                        rec(key, x=repr(x), f_x=repr(a), f_minus_x=repr(b))
+            except NotImplementedError:
+                continue
+            except Exception as e:
+                rec(key, raised=repr(e)[:200])
+    return tname, out
+
+
 def run(rep, tier, prop="C03"):
     count = 1500 if tier == "quick" else 20000
     jobs = []
@@ -133,6 +204,12 @@ def run(rep, tier, prop="C03"):
             rep.add(core.decided(oid, prop, core.ERROR, functions=("algorithms.%s" % name,), text=err, kind="bounded"))
             continue
         rep.add(core.decided(oid, prop, not fails, functions=("algorithms.%s" % name,), text="bounded stand-in: %s identity of %s, bit for bit, on %d points with non-zero components" % (kind, name, n), detail=dict(failures=fails, inputs=n), kind="bounded", solver="native-run", meta=dict(part="bounded", fails=fails, t=tname, identity=kind, func=name)))
+    with mp.get_context("fork").Pool(2) as pool:
+        sres = pool.map(special_job, ["float32", "float64"])
+    for tname, out in sres:
+        for key, lst in sorted(out.items()):
+            fam, name = key.split("/")
+            rep.add(core.decided("%s/bounded/%s/%s/%s" % (prop, fam, name, tname), prop, not lst, functions=("algorithms.%s" % name,), text="bounded stand-in: %s of %s at the points the main lattice leaves out" % (fam, name), detail=dict(failures=lst[:4]), kind="bounded", solver="native-run", meta=dict(part="bounded", fails=lst[:4], t=tname, identity=fam, func=name, special=True)))
     rep.bounded.append(dict(what="every identity of the check (claimed or not) evaluated bit for bit on the NumPy function generated from the expanded graph", bound="float32 and float64; a lattice of about 3400 special points (diagonals, circles of radius ~1 around 0, +-1, +-i, powers of two, extremes) plus %d seeded points per identity; components non-zero" % count, counted_as_proved=False))
 
 
@@ -151,4 +228,6 @@ def replay(o):
     if meta.get("part") != "bounded":
         return None
     fails = meta.get("fails") or []
+    if meta.get("special"):
+        return dict(replayed=bool(fails), failing_inputs=fails, witness_class=str(meta.get("identity")))
     return dict(replayed=bool(fails), failing_inputs=fails, witness_class="%s %s %s" % (meta.get("identity"), meta.get("func"), meta.get("t")))
